@@ -11,8 +11,11 @@ KINDS = S.KINDS
 def any_ref(rng, s, kinds=None):
     k = rng.choice(kinds or KINDS)
     ids = [e["id"] for e in s[COLL[k]]]
-    if ids and rng.random() < 0.8:
+    r = rng.random()
+    if ids and r < 0.8:
         return (k, rng.choice(ids))
+    if ids and r < 0.87:
+        return (k, S.GHOST + rng.choice(ids))        # qualified by a schema that is not loaded
     return (k, 900 + rng.randrange(20))
 
 
